@@ -1,2 +1,247 @@
-/- C03 driver (stub until the model exists) -/
-def main : IO Unit := pure ()
+/- C03 driver: trace acceptor. Input per case: op lines, then the implementation's output lines
+prefixed "T ", then "end".  For every `pass` the kernel's interest and ready list (`K` line, as
+seen by the interposed epoll_wait/select of the harness) are checked against the model
+(interest = what the model says is registered; ready = interest ∩ actual readiness, complete,
+distinct, ascending for select) and then taken as the oracle; with that order the model is
+deterministic, so every callback line (`F`), script result line (`E`), API result and
+isEnabled() vector of the real loop must be exactly what the model produces.
+Prints `ok …` or `reject …`. -/
+import TboxModel.Util
+import TboxModel.C03.Model
+open Tbox.Util Tbox.C03
+
+def nSlots : Nat := 6
+
+def bitsOf (s : State) : String :=
+  if s.nEv = 0 then "-" else
+  String.ofList ((List.range s.nEv).map fun j =>
+    let v := s.evs j
+    if !v.alive then 'x' else if v.enabled then '1' else '0')
+
+def numLt (w : String) (lim : Nat) : Option Nat := do
+  if w.isEmpty || !w.all Char.isDigit then none
+  let n ← w.toNat?
+  if n < lim then some n else none
+
+def parseAct (w : String) : Option Act :=
+  match w.toList with
+  | [] => none
+  | k :: rest =>
+    let r := String.ofList rest
+    if r.isEmpty then none else
+    match k with
+    | 'i' =>
+      match r.splitOn ":" with
+      | [e, f, m, o] => do
+        let e ← numLt e 1000; let f ← numLt f nSlots; let m ← numLt m 8
+        if o == "o" then some (.init e f m true) else if o == "p" then some (.init e f m false) else none
+      | _ => none
+    | 'e' => (numLt r 1000).map .enable
+    | 'd' => (numLt r 1000).map .disable
+    | 'x' => (numLt r 1000).map .destroy
+    | 'c' => (numLt r nSlots).map .close
+    | 'r' => (numLt r nSlots).map (.setR · true)
+    | 'u' => (numLt r nSlots).map (.setR · false)
+    | 'w' => (numLt r nSlots).map (.setW · true)
+    | 'b' => (numLt r nSlots).map (.setW · false)
+    | _ => none
+
+def parseScript (w : String) (self : Nat) : Option (List Act) :=
+  if w == "-" then some [] else
+  (w.splitOn ",").mapM fun item => do
+    let a ← parseAct item
+    if a == .destroy self then none else some a
+
+structure TAcc where
+  s : State := init
+  be : Backend := .epoll
+  tl : List String := []
+  tags : List String := []
+  err : Option String := none
+  nops : Nat := 0
+
+def fail (a : TAcc) (msg : String) : TAcc := { a with err := some s!"op#{a.nops} {msg}" }
+
+def expectLine (a : TAcc) (want : String) (what : String) : TAcc :=
+  match a.tl with
+  | l :: rest => if l == want then { a with tl := rest }
+                 else fail a s!"{what}: impl=[{l}] model=[{want}]"
+  | [] => fail a s!"{what}: impl=<missing> model=[{want}]"
+
+/-! ### replay of one pass with the lines the real loop must print -/
+
+def scriptRets (s : State) : List Act → State × String
+  | [] => (s, "")
+  | x :: xs =>
+    let r := act s x
+    let r2 := scriptRets r.1 xs
+    (r2.1, (if r.2 then "1" else "0") ++ r2.2)
+
+/-- expected line, the model state just before it (for diagnosis) -/
+abbrev Exp := List (String × State)
+
+structure Rp where
+  s : State
+  out : Exp := []
+  tags : List String := []
+
+def rpEvent (w : Wait) (f m : Nat) (p : Rp) (e : Nat) : Rp :=
+  let v := p.s.evs e
+  let r := enterEvent w f m p.s e
+  if !r.2 then { p with s := r.1, tags := p.tags ++ (if v.alive then ["mask-miss"] else ["dead-event"]) }
+  else
+    let l1 := s!"F {e} {m} en={bitsOf r.1}"
+    let sr := scriptRets r.1 v.script
+    let rets := if sr.2.isEmpty then "-" else sr.2
+    let l2 := s!"E {e} rets={rets} en={bitsOf sr.1}"
+    let t := (if v.oneshot then ["oneshot"] else [])
+      ++ (if v.script.any (fun x => match x with | .destroy _ => true | _ => false) then ["cb-destroy"] else [])
+      ++ (if v.script.any (fun x => match x with | .close _ => true | _ => false) then ["cb-close"] else [])
+      ++ (if v.script.any (fun x => match x with | .init _ _ _ _ => true | _ => false) then ["cb-init"] else [])
+      ++ (if (List.range nSlots).any (fun g => sr.1.gen g != r.1.gen g) then ["cb-fd-reuse"] else [])
+    { s := sr.1, out := p.out ++ [(l1, p.s), (l2, r.1)], tags := p.tags ++ t }
+
+def rpLoop (w : Wait) (f m : Nat) : Rp → List Nat → Rp
+  | p, [] => p
+  | p, e :: rest =>
+    match findRec w p.s f with
+    | none => { p with tags := p.tags ++ ["loop-break"] }
+    | some r => if r.subs.contains e then rpLoop w f m (rpEvent w f m p e) rest
+                else rpLoop w f m { p with tags := p.tags ++
+                        [if (p.s.evs e).alive then "skip-disabled-sibling" else "skip-destroyed-sibling"] } rest
+
+def rpFd (w : Wait) (p : Rp) (fm : Nat × Nat) : Rp :=
+  match findRec w p.s fm.1 with
+  | none => { p with tags := p.tags ++ [if (p.s.recs fm.1).isSome then "skip-new-record" else "skip-no-record"] }
+  | some r => rpLoop w fm.1 fm.2 { p with tags := p.tags ++ (if r.subs.length ≥ 2 then ["shared-fd"] else []) } r.subs
+
+def rpPass (s : State) (ready : List (Nat × Nat)) : Rp :=
+  ready.foldl (rpFd (waitOf s ready)) { s := s, tags := if ready.length ≥ 2 then ["multi-ready"] else [] }
+
+def cbKeys (s : State) : List (Nat × Nat) :=
+  s.log.filterMap fun o => match o with | .cb c => some (c.e, c.m) | _ => none
+
+def parseReady (w : String) : Option (List (Nat × Nat)) :=
+  if w == "-" then some [] else
+  (w.splitOn ",").mapM fun item =>
+    match item.splitOn ":" with
+    | [f, m] => do let f ← numLt f nSlots; let m ← numLt m 8; pure (f, m)
+    | _ => none
+
+def interestStr (be : Backend) (s : State) : String :=
+  String.ofList ((List.range nSlots).map fun f => Char.ofNat (48 + interest be s f))
+
+/-- why a callback the real loop made is not the one the model expects -/
+def diagnose (s : State) (l : String) : String :=
+  match words l with
+  | ["F", e, _, _] =>
+    match e.toNat? with
+    | some e =>
+      let v := s.evs e
+      if !v.alive then s!" — callback on DESTROYED event {e}"
+      else if !v.enabled then s!" — callback on DISABLED event {e}"
+      else s!" — callback on event {e} (fd {v.fd}) which is not due here (stale or out-of-order readiness)"
+    | none => ""
+  | _ => ""
+
+def matchExp (a : TAcc) : Exp → TAcc
+  | [] => a
+  | (want, sBefore) :: rest =>
+    match a.tl with
+    | l :: tl' =>
+      if l == want then matchExp { a with tl := tl' } rest
+      else if (words l).take 3 == (words want).take 3 then
+        fail a s!"in pass: impl=[{l}] model=[{want}] — same callback, different isEnabled() vector / script results"
+      else fail a s!"in pass: impl=[{l}] model=[{want}]{diagnose sBefore l}"
+    | [] => fail a s!"in pass: impl=<missing> model=[{want}]"
+
+def doPass (a : TAcc) : TAcc :=
+  match a.tl with
+  | [] => fail a "pass: no K line from the implementation"
+  | l :: rest =>
+    match words l with
+    | ["K", i, r] =>
+      let wantI := "i=" ++ interestStr a.be a.s
+      if i != wantI then fail a s!"kernel interest at wait: impl=[{i}] model=[{wantI}]" else
+      if !r.startsWith "r=" then fail a s!"unparsable K line [{l}]" else
+      match parseReady (r.drop 2).toString with
+      | none => fail a s!"unparsable K line [{l}]"
+      | some ready =>
+        if !validReady a.be a.s ready then
+          fail a s!"ready list [{r}] is not (interest ∩ actual readiness) of distinct descriptors in back-end order"
+        else
+          let missing := (List.range nSlots).filter fun f =>
+            (interest a.be a.s f &&& actualMask a.s f) != 0 && !(ready.map (·.1)).contains f
+          if !missing.isEmpty then fail a s!"ready descriptors {missing} missing from the kernel's list [{r}]" else
+          let p := rpPass a.s ready
+          let sm := pass a.s ready
+          if bitsOf sm != bitsOf p.s || cbKeys sm != cbKeys p.s then
+            fail a "internal: driver replay diverges from the model's pass"
+          else
+            let a1 := matchExp { a with tl := rest } p.out
+            if a1.err.isSome then a1 else
+            -- anything the loop printed beyond the expected callbacks shows up here
+            match a1.tl with
+            | l2 :: _ =>
+              if l2.startsWith "F " || l2.startsWith "E " then
+                fail a1 s!"in pass: impl=[{l2}] model=<no further callback>{diagnose p.s l2}"
+              else
+                let ncb := (cbKeys p.s).length - (cbKeys a.s).length
+                let tg := if ncb = 0 then "pass0" else if ncb = 1 then "pass1" else "passN"
+                let tb := if a.be == .select then "select" else "epoll"
+                expectLine { a1 with s := p.s, tags := a1.tags ++ p.tags ++ [tg, tb] } ("P en=" ++ bitsOf p.s) "after pass"
+            | [] => fail a1 "after pass: impl=<missing>"
+    | _ => fail a s!"pass: expected a K line, impl=[{l}]"
+
+def stepOp (a : TAcc) (line : String) : TAcc :=
+  if a.err.isSome then a else
+  let a := { a with nops := a.nops + 1 }
+  match words line with
+  | ["be", k] =>
+    if k == "epoll" then expectLine { a with s := init, be := .epoll } "P be=epoll" "be"
+    else if k == "select" then expectLine { a with s := init, be := .select } "P be=select" "be"
+    else expectLine a "bad-op" "malformed op"
+  | ["pass"] => doPass a
+  | ["new", sc] =>
+    match (if a.s.nEv < 64 then parseScript sc a.s.nEv else none) with
+    | none => expectLine a "bad-op" "malformed op"
+    | some l =>
+      let s' := step a.s (.newEv l)
+      expectLine { a with s := s' } ("P ret=1 en=" ++ bitsOf s') "new"
+  | ["do", x] =>
+    match parseAct x with
+    | none => expectLine a "bad-op" "malformed op"
+    | some x =>
+      let r := act a.s x
+      let t := match x with
+        | .close _ => if r.2 then ["fd-reuse"] else ["close-refused"]
+        | _ => []
+      expectLine { a with s := r.1, tags := a.tags ++ t } ("P ret=" ++ (if r.2 then "1" else "0") ++ " en=" ++ bitsOf r.1) "api result"
+  | _ => expectLine a "bad-op" "malformed op"
+
+structure DS where
+  ops : Array String := #[]
+  tl : Array String := #[]
+
+def finish (d : DS) : List String :=
+  let a : TAcc := d.ops.foldl stepOp ({ tl := d.tl.toList } : TAcc)
+  let tagsLine := if a.tags.isEmpty then [] else ["B " ++ " ".intercalate a.tags.eraseDups]
+  match a.err with
+  | some e => tagsLine ++ ["reject " ++ e]
+  | none =>
+    match a.tl with
+    | [] =>
+      let bad := a.s.log.any fun o => match o with | .bad _ => true | _ => false
+      if bad then tagsLine ++ ["reject internal: model reached a stale access"]
+      else tagsLine ++ [s!"ok ops={a.nops} callbacks={(cbKeys a.s).length}"]
+    | l :: _ => tagsLine ++ ["reject unexpected extra implementation output: [" ++ l ++ "]"]
+
+def stepLine (d : DS) (line : String) : DS × List String :=
+  let t := line.trimAscii.toString
+  if t.isEmpty then (d, [])
+  else if t.startsWith "case " then ({}, [t])
+  else if t == "end" then ({}, finish d)
+  else if t.startsWith "T " then ({ d with tl := d.tl.push (t.drop 2).toString }, [])
+  else ({ d with ops := d.ops.push t }, [])
+
+def main : IO Unit := runDriver ({} : DS) stepLine
